@@ -108,6 +108,16 @@ pub struct RunOut {
     pub end_pos: Option<u64>,
 }
 
+/// Record the codec rows of the entry being written without forgetting it: a start call that FAILED may
+/// or may not have closed the previous entry (e.g. it fails in the implicit end_extra_data and the
+/// entry stays open); rows are keyed by content, so recording too many is harmless.
+fn note_cur(cur: &Option<Cur>, comp: &mut Vec<String>, zc: &mut Vec<String>) {
+    if let Some(c) = cur {
+        let mut tmp = Some(Cur { method: c.method, level: c.level, pw: c.pw.clone(), chunks: c.chunks.clone(), in_extra: c.in_extra, raw: c.raw });
+        close_cur(&mut tmp, comp, zc);
+    }
+}
+
 fn close_cur(cur: &mut Option<Cur>, comp: &mut Vec<String>, zc: &mut Vec<String>) {
     if let Some(c) = cur.take() {
         if c.raw { return; }
@@ -183,7 +193,7 @@ pub fn run_calls_sink<S: std::io::Read + Write + std::io::Seek + SinkInfo>(calls
                             "sx" => w.start_file_with_extra_data(nm, o.to_zip()).map(|v| format!("ok={v}")),
                             _ => w.start_file_aligned(nm, o.to_zip(), x[9].parse().unwrap_or(0)).map(|v| format!("ok={v}")),
                         };
-                        close_cur(&mut cur, &mut out.comp, &mut out.zc);
+                        if res.is_ok() { close_cur(&mut cur, &mut out.comp, &mut out.zc); } else { note_cur(&cur, &mut out.comp, &mut out.zc); }
                         match res {
                             Ok(t) => {
                                 cur = Some(Cur { method: o.method, level: o.level.unwrap_or(default_level(o.method)), pw: o.pw.clone(), chunks: vec![], in_extra: x[0] == "sx", raw: false });
@@ -191,7 +201,7 @@ pub fn run_calls_sink<S: std::io::Read + Write + std::io::Seek + SinkInfo>(calls
                                 pending_expect = Some(out.expect.len() - 1);
                                 t
                             }
-                            Err(e) => { pending_expect = None; cls_z(&e) }
+                            Err(e) => { /* the previous entry may still be open (refusal in the implicit end_extra_data): keep its bookkeeping */ cls_z(&e) }
                         }
                     }
                     "w" => {
@@ -222,8 +232,7 @@ pub fn run_calls_sink<S: std::io::Read + Write + std::io::Seek + SinkInfo>(calls
                         let o = match Opts::parse(&x[2..9]) { Some(o) => o, None => return "bad-call".into() };
                         let nm = String::from_utf8_lossy(&name).into_owned();
                         let res = w.add_directory(nm.clone(), o.to_zip());
-                        close_cur(&mut cur, &mut out.comp, &mut out.zc);
-                        pending_expect = None;
+                        if res.is_ok() { close_cur(&mut cur, &mut out.comp, &mut out.zc); pending_expect = None; } else { note_cur(&cur, &mut out.comp, &mut out.zc); }
                         match res {
                             Ok(()) => {
                                 let n2 = if nm.ends_with('/') || nm.ends_with('\\') { nm } else { format!("{nm}/") };
@@ -238,8 +247,7 @@ pub fn run_calls_sink<S: std::io::Read + Write + std::io::Seek + SinkInfo>(calls
                         let target = unhex(x[2]).unwrap_or_default();
                         let o = match Opts::parse(&x[3..10]) { Some(o) => o, None => return "bad-call".into() };
                         let res = w.add_symlink(String::from_utf8_lossy(&name).into_owned(), String::from_utf8_lossy(&target).into_owned(), o.to_zip());
-                        close_cur(&mut cur, &mut out.comp, &mut out.zc);
-                        pending_expect = None;
+                        if res.is_ok() { close_cur(&mut cur, &mut out.comp, &mut out.zc); pending_expect = None; } else { note_cur(&cur, &mut out.comp, &mut out.zc); }
                         match res {
                             Ok(()) => {
                                 // the symlink target is the (stored) content; an encrypting option would also encrypt it
@@ -264,8 +272,7 @@ pub fn run_calls_sink<S: std::io::Read + Write + std::io::Seek + SinkInfo>(calls
                                 Ok(f) => {
                                     let (m, sname) = ({ #[allow(deprecated)] f.compression().to_u16() }, f.name().as_bytes().to_vec());
                                     let res = if x[3] == "same" { w.raw_copy_file(f) } else { w.raw_copy_file_rename(f, String::from_utf8_lossy(&unhex(x[3]).unwrap_or_default()).into_owned()) };
-                                    close_cur(&mut cur, &mut out.comp, &mut out.zc);
-                                    pending_expect = None;
+                                    if res.is_ok() { close_cur(&mut cur, &mut out.comp, &mut out.zc); pending_expect = None; } else { note_cur(&cur, &mut out.comp, &mut out.zc); }
                                     match res {
                                         Ok(()) => {
                                             cur = Some(Cur { method: m, level: 0, pw: None, chunks: vec![], in_extra: false, raw: true });
